@@ -34,9 +34,19 @@ func Alive(id int64) bool {
 }
 
 // WaitState returns the bracketed wait state of goroutine id ("" if it no longer exists).
+var stackBufs = sync.Pool{New: func() any { b := make([]byte, 4<<20); return &b }}
+
 func WaitState(id int64) string {
-	buf := make([]byte, 1<<20)
+	bp := stackBufs.Get().(*[]byte)
+	defer stackBufs.Put(bp)
+	buf := *bp
 	n := runtime.Stack(buf, true)
+	// many worlds run in one process: the dump of all goroutines must not be cut short
+	for n == len(buf) && len(buf) < 256<<20 {
+		buf = make([]byte, 2*len(buf))
+		*bp = buf
+		n = runtime.Stack(buf, true)
+	}
 	needle := []byte("goroutine " + strconv.FormatInt(id, 10) + " [")
 	i := bytes.Index(buf[:n], needle)
 	if i < 0 {
@@ -198,8 +208,13 @@ func (c *Controller) Await(p *Proc, timeout time.Duration) (label string, done b
 func (c *Controller) AwaitL(p *Proc, timeout time.Duration) (label string, done bool, locked bool, err error) {
 	deadline := time.Now().Add(timeout)
 	lockSeen := 0
+	// dumping all goroutines stops the world: poll rarely once the proc is clearly not about to arrive
+	poll := 400 * time.Microsecond
 	for {
-		t := time.NewTimer(400 * time.Microsecond)
+		t := time.NewTimer(poll)
+		if poll < 8*time.Millisecond {
+			poll += poll / 2
+		}
 		select {
 		case l := <-p.arrived:
 			t.Stop()
